@@ -104,7 +104,7 @@ static std::vector<Tok> header_tokens(const std::string& f) {
 
 
 static std::string read_all_modes(std::string file, int mode) {
-  // mode bit 0: with_data; bits 1-2: 0 memory, 1 file, 2 gzip file
+  // mode bit 0: with_data; bits 1-2: 0 memory, 1 file, 2 gzip file, 3 gzip file followed by a corrupt second member
   bool with_data = mode & 1;
   int via = (mode >> 1) & 3;
   alarm(10);
@@ -116,11 +116,27 @@ static std::string read_all_modes(std::string file, int mode) {
       mtz.read_stream(ms, with_data);
     } else {
       char path[64];
-      std::snprintf(path, sizeof path, "/tmp/verif_mtzfuzz_%d.%s", (int) getpid(), via == 2 ? "mtz.gz" : "mtz");
-      if (via == 2) {
+      std::snprintf(path, sizeof path, "/tmp/verif_mtzfuzz_%d.%s", (int) getpid(), via >= 2 ? "mtz.gz" : "mtz");
+      if (via >= 2) {
         gzFile gz = gzopen(path, "wb");
         gzwrite(gz, file.data(), (unsigned) file.size());
         gzclose(gz);
+        if (via == 3) {      // a second gzip member whose deflate body is corrupt / cut short
+          char p2[80];
+          std::snprintf(p2, sizeof p2, "%s.2", path);
+          gzFile g2 = gzopen(p2, "wb");
+          std::string more(3000, 'x');
+          for (size_t i = 0; i < more.size(); ++i) more[i] = char('a' + (i * 7 + i / 13) % 23);
+          gzwrite(g2, more.data(), (unsigned) more.size());
+          gzclose(g2);
+          std::ifstream in2(p2, std::ios::binary);
+          std::string m2((std::istreambuf_iterator<char>(in2)), std::istreambuf_iterator<char>());
+          std::remove(p2);
+          for (size_t i = 12; i + 8 < m2.size(); i += 5) m2[i] = char(m2[i] ^ 0x5a);   // keep the 10-byte header
+          if (file.size() % 2) m2.resize(m2.size() / 2);
+          std::ofstream app(path, std::ios::binary | std::ios::app);
+          app.write(m2.data(), (std::streamsize) m2.size());
+        }
       } else {
         std::ofstream o(path, std::ios::binary);
         o.write(file.data(), (std::streamsize) file.size());
